@@ -401,6 +401,15 @@ theorem C09_conflicting_name_not_owner_partial (svc : Svc) (old : String) (hn : 
 escape E2 — breaks `C09_key_follows_name`, and the harness asks for the abandoned and for the held name after every rename).
 The responder's choice of records is C03's model (`Zc.instancePart`, `Zc.pointerPart`: look-ups in the registry by lower-cased name). -/
 
+/-- the public wrappers pass `allow_name_change`, `cooperating_responders`, `strict` on in that order (third review: a swap in the
+synchronous `register_service` registered a taken name with no probe at all).  Shape pins; the harness registers through
+`AsyncZeroconf.async_register_service` in 30 % of the scenarios and through the threaded `register_service` in a small real-loop stream. -/
+theorem C09_api_wrappers_pass_arguments :
+    Gen.Register.src_sync_register_arg2 = "allow_name_change" ∧ Gen.Register.src_sync_register_arg3 = "cooperating_responders" ∧
+    Gen.Register.src_sync_register_arg4 = "strict" ∧ Gen.Register.src_aio_register_arg2 = "allow_name_change" ∧
+    Gen.Register.src_aio_register_arg3 = "cooperating_responders" ∧ Gen.Register.src_aio_register_arg4 = "strict" :=
+  Zc.GenFacts.Register.api_wrappers_pass_arguments
+
 /-- the registry key of an info is its lower-cased name at construction and after every rename -/
 theorem C09_key_follows_name :
     Gen.Register.src_info_ctor_key = "name.lower()" ∧ Gen.Register.src_info_name_setter_key = "name.lower()" :=
